@@ -309,6 +309,10 @@ def part_b(ctx):
                         break
             summary_check(ctx, doc, stm)
             ctx.traces_validated += 1
+        except Exception as e:  # noqa: BLE001
+            docx = dict(part="e2e", special="many partitions", rep=rep)
+            ctx.case(docx, nontrivial=True)
+            ctx.fail(docx, dict(error=f"{type(e).__name__}: {e}"[:300]), "exploding / reading back a store with more than ten partitions raised")
         finally:
             shutil.rmtree(dm, ignore_errors=True)
     for i in range(ctx.n(8, 120)):
